@@ -209,3 +209,15 @@ Theorem static_sound_stop_chunk_state_witness :
   exists l : list C04.Model.frameQ,
     stop_run [6%Z] = Some (true, 0%Q, l) /\ stop_run [3%Z; 3%Z] = Some (true, (1 # 2)%Q, l).
 Proof. exact process_stop_chunk_state_witness. Qed.
+
+(** Non-vacuity, evaluated in binary32 / binary64 (C11/InstancesEx.v): a sub-track with two static
+    sounds at rates 1.5 (looping) and 0.75 and the chain low-pass filter -> delay (feedback through
+    a band-pass filter) -> reverb, routed to a send with a compressor; stereo device; internal
+    buffer 2 with callbacks 3,1,4 against internal buffer 3 with callbacks 1,1,2,4 (effects
+    init'ed with 2 resp. 3): the same 16 samples (bit patterns), none of them NaN, not silence. *)
+Theorem kira_example_two_partitions :
+  InstancesEx.ex_render 2 [3; 1; 4] = InstancesEx.ex_render 3 [1; 1; 2; 4] /\
+  length (InstancesEx.ex_render 2 [3; 1; 4]) = 16 /\
+  Forall (fun z => (0 <= z)%Z) (InstancesEx.ex_render 2 [3; 1; 4]) /\
+  nth 9 (InstancesEx.ex_render 2 [3; 1; 4]) 0%Z <> 0%Z.
+Proof. exact InstancesEx.ex_two_partitions. Qed.
